@@ -291,6 +291,47 @@ func Run(ctx *common.Ctx) int {
 				}
 			}
 		}
+		// F7: near-critical histograms in which the tolerated number of samples FAIL the item while their
+		// Q-values lie in bins other than the first: the uniformity criterion is over all s Q-values
+		f7 := 0
+		for pi, pt := range parts {
+			lim := 8.0
+			if s == 50 {
+				lim = 2.0
+				if !quick {
+					lim = 4.0
+				}
+			}
+			if math.Abs(pt.chi-crit) > lim {
+				continue
+			}
+			for how := 0; how < 2; how++ {
+				counts := arrange(pt.p, how)
+				for _, nfail := range []int{1, s - t} {
+					if nfail < 1 || (nfail == 1 && s-t == 1 && how == 1) {
+						continue
+					}
+					i := (pi + how + nfail) % w.Items
+					sc := seam.NewScenario("F7", s)
+					ord := identity(s)
+					setHistogram(sc, i, counts, false, ord)
+					// fail the samples that sit in the highest populated bin
+					marked := 0
+					for k := s - 1; k >= 0 && marked < nfail; k-- {
+						if model.Bin(sc.Q[k][i]) >= 1 {
+							sc.Pass[k][i] = false
+							marked++
+						}
+					}
+					if marked < nfail {
+						continue
+					}
+					f7++
+					add("F7", job{w: w, sc: sc, desc: fmt.Sprintf("F7 item=%d bins=%v chi2=%.3f with %d failing samples in the top bins", i, counts, pt.chi, nfail),
+						sig: fmt.Sprintf("%s/f7/i%d/h%v/%d/%d", w.Name, i, pt.p, how, nfail)})
+				}
+			}
+		}
 		// F3: ordered pairs: item i fails criterion 1 (threshold-1), item j fails criterion 2; and both just fine
 		for i := 0; i < w.Items; i++ {
 			for j2 := 0; j2 < w.Items; j2++ {
@@ -383,7 +424,7 @@ func Run(ctx *common.Ctx) int {
 		"evaluations":         int(r.evals) + e2e,
 		"distinct_nontrivial": r.sigs.Len() - 3,
 		"rule": "every scenario is an s x 15 matrix of per-sample (Pass, Q) results fed to the real workflow through stub registry runners on a marker stream; " +
-			"families F1 (every item x every pass count), F2 (every partition of s into <=10 bin counts; quick: all for s=20 items rotated, near-critical ones for s=50), F3 (ordered item pairs on both criteria), F4 (trailing bytes), F6 (unjudged items); " +
+			"families F1 (every item x every pass count), F7 (near-critical histograms with the tolerated number of failing samples outside the first bin), F2 (every partition of s into <=10 bin counts; quick: all for s=20 items rotated, near-critical ones for s=50), F3 (ordered item pairs on both criteria), F4 (trailing bytes), F6 (unjudged items); " +
 			"distinct = distinct (workflow, item, pass count | bin-count partition | pair | tail) signatures; the three all-pass baselines are the only trivial ones",
 		"samples":          r.sample,
 		"families":         famCount,
